@@ -74,7 +74,7 @@ func opKey(op string) (int, bool) {
 		return 0, false
 	}
 	switch f[0] {
-	case "adv", "setmax", "runexec":
+	case "adv", "setmax", "runexec", "mkiter", "useiter":
 		return 0, false
 	}
 	return atoi(f[1]), true
@@ -491,7 +491,50 @@ func (s *seqRunner) apply(op string) OpResult {
 				want = m.liveKeys()
 			}
 			sort.Ints(want)
-			if fmt.Sprint(got) != fmt.Sprint(want) {
+			if strings.HasPrefix(op, "useiter") {
+				// an iterator obtained earlier and ranged now: nothing that is absent or expired now may be yielded, no key
+				// twice, and every entry that was present when it was obtained and still is (same value) must be yielded
+				seen := map[int]bool{}
+				for _, g := range got {
+					if seen[g] {
+						s.fail("iteration-duplicate", name, "op %q yields key %d twice", op, g)
+					}
+					seen[g] = true
+					if _, live := m.get(g); !live {
+						kind := "result-mismatch"
+						if e := m.m[g]; e != nil && e.exp <= m.now {
+							kind = "expired-observed"
+						}
+						s.fail(kind, name, "op %q (an iterator obtained earlier, ranged now) yields key %d which the abstract map does not hold now (it holds %v)", op, g, want)
+					}
+				}
+				if res.OK {
+					for kk, vv := range m.iterSnap {
+						if e, live := m.get(kk); live && e.val == vv && !seen[kk] {
+							s.fail("result-mismatch", name, "op %q does not yield key %d although it was present when the iterator was obtained and still is", op, kk)
+						}
+					}
+				}
+			} else if f0 := strings.Fields(op)[0]; f0 == "all1" || f0 == "keys1" || f0 == "coldest1" || f0 == "hottest1" {
+				// abandoned after the first element: exactly one live key if there is any, none otherwise
+				okFirst := len(got) == 0 && len(want) == 0
+				if len(got) == 1 {
+					for _, w := range want {
+						if w == got[0] {
+							okFirst = true
+						}
+					}
+				}
+				if !okFirst {
+					kind := "result-mismatch"
+					for _, g := range got {
+						if e := m.m[g]; e != nil && e.exp <= m.now {
+							kind = "expired-observed"
+						}
+					}
+					s.fail(kind, name, "op %q (iteration abandoned after the first element) yields %v, the abstract map holds %v", op, got, want)
+				}
+			} else if fmt.Sprint(got) != fmt.Sprint(want) {
 				kind := "result-mismatch"
 				if !strings.HasPrefix(op, "values") {
 					for _, g := range got {
